@@ -21,14 +21,14 @@ import Strengths.Gen.ScriptPy
 import Strengths.Gen.EngineLife
 
 namespace Strengths.C09
-open Strengths Strengths.Sim
+open Strengths Strengths.SimSt
 
 variable {σ ω : Type} (A : Algo σ ω) (cfg : SamplerCfg)
 
 /-! ## 1. the model's skeleton is the code's (generated text) -/
 
 /-- `Iterate()` of the fixed-step algorithms: reset flag; complete → false; step; `t += dt`;
-`SamplingStep()`; `CheckTMax()`; `!complete`  (`Sim.iterate`) -/
+`SamplingStep()`; `CheckTMax()`; `!complete`  (`SimSt.iterate`) -/
 theorem iterate_fixed_step_text :
     Gen.iterateEuler3D = ["sampling_done_this_iteration=false", "if(complete)returnfalse", "Compute_dxdt()", "Apply_dxdt()",
       "t+=dt", "SamplingStep()", "CheckTMax()", "return!complete"] ∧
@@ -71,7 +71,7 @@ theorem policy_codes :
     Gen.cppPoliciesGraph = Gen.cppPoliciesGrid ∧
     Gen.pyPolicies = Gen.cppPoliciesGrid.map (·.1) := by decide
 
-/-- what `Init` assigns before its final `SamplingStep()` (`Sim.fresh`) -/
+/-- what `Init` assigns before its final `SamplingStep()` (`SimSt.fresh`) -/
 theorem init_text :
     Gen.initSamplerAssignsGrid = [("sample_pos", "0"), ("sampling_done_this_iteration", "false"), ("last_tsi_ratio", "-1"),
       ("t", "0.0"), ("complete", "false")] ∧
@@ -112,17 +112,17 @@ theorem policy_times_strict (hA : PosDt A) (x0 : σ) (n : Nat) :
   (iter_strictInv A cfg hA x0 n).1
 
 /-- with explicit `sample()` calls mixed in anywhere: never decreasing -/
-theorem manual_times_mono (hA : NonnegDt A) (x0 : σ) (s : Sim σ ω) (h : Reach A cfg x0 s) :
+theorem manual_times_mono (hA : NonnegDt A) (x0 : σ) (s : SimSt σ ω) (h : Reach A cfg x0 s) :
     (exportTimes s.recs).Pairwise (· ≤ ·) :=
   (reach_monoInv A cfg hA x0 s h).1
 
 /-- a record taken at t = 0 holds the (processed) initial state, whoever made it -/
-theorem t0_record_is_initial (hA : PosDt A) (x0 : σ) (s : Sim σ ω) (h : Reach A cfg x0 s) :
+theorem t0_record_is_initial (hA : PosDt A) (x0 : σ) (s : SimSt σ ω) (h : Reach A cfg x0 s) :
     ∀ r ∈ s.recs, r.1 = 0 → r.2 = A.obs x0 :=
   (reach_zeroInv A cfg hA x0 s h).2.2
 
 /-- every iteration makes at most one record, whatever the policy and however many requests it covers -/
-theorem one_record_per_step (s : Sim σ ω) : (next A cfg s).recs.length ≤ s.recs.length + 1 := by
+theorem one_record_per_step (s : SimSt σ ω) : (next A cfg s).recs.length ≤ s.recs.length + 1 := by
   rcases next_recs A cfg s with h | ⟨_, _, _, _, _, h, _, _⟩ <;> rw [h] <;> simp
 
 /-! ## 4. which steps are recorded -/
@@ -185,17 +185,17 @@ theorem interval_cover (hpol : cfg.policy = 2) (hiv : 0 < cfg.interval) (hA : No
 /-- per-iteration sampling records t = 0 and every step -/
 theorem iteration_all (hpol : cfg.policy = 1) (x0 : σ) :
     (init A cfg x0).recs = [((0 : Rat), A.obs x0)] ∧
-    ∀ (s : Sim σ ω) x' dt, s.complete = false → A.step s.x = some (x', dt) →
+    ∀ (s : SimSt σ ω) x' dt, s.complete = false → A.step s.x = some (x', dt) →
       (next A cfg s).recs = s.recs ++ [(s.t + dt, A.obs x')] := by
-  have hf : ∀ s : Sim σ ω, fires cfg s = true := by intro s; unfold fires; rw [hpol]; rfl
+  have hf : ∀ s : SimSt σ ω, fires cfg s = true := by intro s; unfold fires; rw [hpol]; rfl
   refine ⟨by rw [fresh_samplingStep_recs, if_pos (hf _)], ?_⟩
   intro s x' dt hc hs
   rw [next_recs_of_step A cfg s hc hs, if_pos (hf _)]
 
 /-- with sampling disabled the policy records nothing: only explicit `sample()` calls do -/
 theorem none_only_manual (hpol : cfg.policy = 3) (x0 : σ) :
-    (init A cfg x0).recs = [] ∧ ∀ s : Sim σ ω, (next A cfg s).recs = s.recs := by
-  have hf : ∀ s : Sim σ ω, fires cfg s = false := by intro s; unfold fires; rw [hpol]; rfl
+    (init A cfg x0).recs = [] ∧ ∀ s : SimSt σ ω, (next A cfg s).recs = s.recs := by
+  have hf : ∀ s : SimSt σ ω, fires cfg s = false := by intro s; unfold fires; rw [hpol]; rfl
   refine ⟨by rw [fresh_samplingStep_recs, hf]; rfl, ?_⟩
   intro s
   rcases next_recs A cfg s with h | ⟨x', dt, _, _, hfire, _⟩
@@ -203,7 +203,7 @@ theorem none_only_manual (hpol : cfg.policy = 3) (x0 : σ) :
   · rw [hf] at hfire; cases hfire
 
 /-- an explicit `sample()` records the current (time, state) unless this iteration already recorded -/
-theorem manual_sample (s : Sim σ ω) :
+theorem manual_sample (s : SimSt σ ω) :
     (s.sample A).recs = if s.done then s.recs else s.recs ++ [(s.t, A.obs s.x)] := sample_recs A s
 
 /-! ## 5. fixed-step runs -/
